@@ -453,3 +453,25 @@ _ROUND7 = {
 }
 for _k, _v in _ROUND7.items():
     PROPS[_k]["rule"] += " " + _v
+
+# Forms added after the eighth set (DESIGN.md section 11.1, round 8)
+_ROUND8 = {
+    "C02": "Also: real binary with a tcp-dynamic listener (any refresh value Load accepts) and a tcp route whose port is taken by another process: the process stays up and serves.",
+    "C03": "Also: tables built from the custom backend's definitions; default port (443 on TLS kinds, 80 on http) through fabio's own http / https / https+tcp+sni listeners with the PROXY protocol on and off.",
+    "C04": "Also: proxy.strategy in every spelling Load accepts through main.go's proxy (rr exact, rnd everybody served, no panic); lookups on 2-4 routes interleaved at random: every route keeps its own cycle.",
+    "C06": "Also: tcp.DynamicProxy with an ip:port route and a :port route on one port: connections served by one route do not use up places in the other's cycle.",
+    "C07": "Also: fabio's own transport (transport.NewTransport) between proxy and upstream; response header blocks of 70-300 KB.",
+    "C09": "Also: a reply of 3-6 MiB to a client that starts reading 300-700 ms later, through a listener opened by proxy.ListenAndServeTCP; record versions 3.2 / 3.3 in the hello's record header.",
+    "C10": "Also: record versions 3.0-3.4 in the record header of built hellos; tcp:// routes with other options (pxyproto, allow, tags) on the shared port.",
+    "C11": "Also: hidden neighbours of the certificate files (editor swap file, ..data symlink); clients without server name before and after a renewal through a listener opened with the listener's TLS configuration.",
+    "C12": "Also: deny lists as an operator types them into a route command (blank after the comma, doubled or trailing comma): a peer inside any written block is refused.",
+    "C13": "Also: tracing.SpanName templates have no say in the answer (same request with and without); custom backend payloads that differ from the previous one in an option value only.",
+    "C15": "Also: real binary with a tcp-dynamic listener without / with zero / negative / positive refresh.",
+    "C16": "Also: the admin endpoints read the table between calls.",
+    "C17": "Also: expressions with a blank (\"^text/plain; charset=utf-8$\") from every source.",
+    "C18": "Also: clients that have connected to a listener and say nothing are open work like any other (all listener kinds); profiling switched on and SIGINT instead of SIGTERM for the real binary.",
+    "C19": "Also: a listener's idle timeout (it=) next to its rt / wt.",
+    "C20": "Also: host and port as the client wrote them after the lookup passed over a redirect route that would have redirected the request to itself.",
+}
+for _k, _v in _ROUND8.items():
+    PROPS[_k]["rule"] += " " + _v
